@@ -58,7 +58,22 @@ class Gen {
   int maxDepth;
 public:
   bool siblingReuse{ false };
+  int nearMiss{ 0 };   // percent: the second operand of a relation / set operation / recursion step gets a type that differs from the first in ONE place (type-checker near miss)
 private:
+  static void CollectTuples(GTy& t, std::vector<GTy*>& out) { if (t.k == GTy::TUPLE) out.push_back(&t); for (auto& s : t.sub) CollectTuples(s, out); }
+  GTy Perturb(const GTy& t) {
+    GTy p = t; std::vector<GTy*> tuples; CollectTuples(p, tuples);
+    if (!tuples.empty() && r.Pct(80)) {
+      GTy* tp = r.Pick(tuples); GTy& comp = r.Pct(65) ? tp->sub.back() : tp->sub[r.Below(tp->sub.size())];
+      if (comp.k == GTy::SET && r.Pct(50)) { GTy inner = comp.sub[0]; comp = inner; }
+      else if (comp.k == GTy::ELEM && r.Pct(30)) comp = GTy::Int();
+      else { GTy inner = comp; comp = GTy::Set(inner); }
+      return p;
+    }
+    if (p.k == GTy::SET && r.Pct(50)) return p.sub[0];
+    return GTy::Set(p);
+  }
+  std::string Rhs(const GTy& t, int depth) { return nearMiss > 0 && r.Pct(nearMiss) ? Expr(Perturb(t), depth) : Expr(t, depth); }
 
   std::string Fresh() {
     static const char* names[]{ "ξ", "σ", "α", "β", "γ", "a", "b", "t", "δ", "x" };
@@ -83,21 +98,23 @@ private:
 public:
   Gen(Rng& r, const Env& env, int maxDepth = 3) : r{ r }, env{ env }, maxDepth{ maxDepth } {}
 
-  GTy RandomElemType(int depth = 0) {
-    const int k = static_cast<int>(r.Below(depth >= 2 ? 2 : 6));
+  GTy RandomElemType(int depth = 0, int cut = 2) {
+    const int k = static_cast<int>(r.Below(depth >= cut ? 2 : 6));
     if (k == 0 || env.baseNames.empty()) { if (env.baseNames.empty() || r.Pct(25)) return GTy::Int(); }
     if (k <= 1) return GTy::Elem(r.Pick(env.baseNames));
-    if (k <= 3) return GTy::Set(RandomElemType(depth + 1));
-    std::vector<GTy> c; const int n = r.Range(2, 3); for (int i = 0; i < n; ++i) c.push_back(RandomElemType(depth + 1));
+    if (k <= 3) return GTy::Set(RandomElemType(depth + 1, cut));
+    std::vector<GTy> c; const int n = r.Range(2, 3); for (int i = 0; i < n; ++i) c.push_back(RandomElemType(depth + 1, cut));
     return GTy::Tuple(std::move(c));
   }
   GTy RandomType() {
+    if (!env.funcs.empty() && r.Pct(20)) { std::vector<const GFunc*> v; for (auto& f : env.funcs) if (!f.logic) v.push_back(&f); if (!v.empty()) return r.Pick(v)->ret; }
     if (r.Pct(55)) { auto known = KnownSetTypes(); if (!known.empty()) return r.Pct(70) ? GTy::Set(r.Pick(known)) : r.Pick(known); }
     return r.Pct(75) ? GTy::Set(RandomElemType(1)) : RandomElemType(0);
   }
 
   // typification text for a structure definition
-  std::string StructureDef() { GTy t = RandomElemType(0); if (t.k == GTy::ELEM || t.k == GTy::INT) t = GTy::Set(t); return Dom(t); }
+  std::string StructureDef() { GTy t = RandomElemType(0, r.Pct(35) ? 3 : 2);   // sometimes one level deeper: sets inside tuples inside sets
+     if (t.k == GTy::ELEM || t.k == GTy::INT) t = GTy::Set(t); return Dom(t); }
 
   std::string Expr(const GTy& t, int depth) {
     const auto vars = VarsOf(t);
@@ -118,6 +135,11 @@ public:
       if (r.Pct(60)) return "debool(" + Expr(GTy::Set(t), depth + 1) + ")";
       { GTy tt = GTy::Tuple({ RandomElemType(2), t }); return "pr2(" + Expr(tt, depth + 1) + ")"; }
     case GTy::TUPLE:
+      if (t.sub.size() == 2 && r.Pct(8)) {   // recursion over a pair with a tuple binder
+        const std::string a = Fresh(), b = Fresh(); const std::string init = Expr(t, depth + 1);
+        Push({ a, t.sub[0] }); Push({ b, t.sub[1] }); const std::string cond = Logic(depth + 1); const std::string step = Rhs(t, depth + 1); locals.pop_back(); locals.pop_back();
+        return "R{(" + a + "," + b + "):=" + init + "|" + cond + "|" + step + "}";
+      }
       if (r.Pct(80)) { std::string s = "("; for (size_t i = 0; i < t.sub.size(); ++i) { if (i) s += ","; s += Expr(t.sub[i], depth + 1); } return s + ")"; }
       return "debool(" + Expr(GTy::Set(t), depth + 1) + ")";
     default: break;
@@ -126,7 +148,7 @@ public:
     const GTy& u = t.sub[0];
     switch (r.Below(14)) {
     case 0: { std::string s = "{"; const int n = r.Range(1, 3); for (int i = 0; i < n; ++i) { if (i) s += ","; s += Expr(u, depth + 1); } return s + "}"; }
-    case 1: case 2: { static const char* ops[]{ "∪", "∩", "\\", "∆" }; return Par(Expr(t, depth + 1) + ops[r.Below(4)] + Expr(t, depth + 1)); }
+    case 1: case 2: { static const char* ops[]{ "∪", "∩", "\\", "∆" }; return Par(Expr(t, depth + 1) + ops[r.Below(4)] + Rhs(t, depth + 1)); }
     case 3: { const std::string v = Fresh(); const std::string dom = Expr(t, depth + 1); Push({ v, u }); std::string s = "D{" + v + "∈" + dom + "|" + Logic(depth + 1) + "}"; locals.pop_back(); return s; }
     case 4: if (u.k == GTy::SET) return "ℬ(" + Expr(u, depth + 1) + ")"; return Fallback(t);
     case 5: if (u.k == GTy::TUPLE) { std::string s; for (size_t i = 0; i < u.sub.size(); ++i) { if (i) s += "×"; const std::string f = Expr(GTy::Set(u.sub[i]), depth + 1); s += Atomic(f) ? f : "(" + f + ")"; } return Par(s); } return Fallback(t);
@@ -145,12 +167,16 @@ public:
       return Fallback(t);
     case 10: { // imperative
       const std::string v = Fresh(); const GTy src = r.Pct(60) ? u : RandomElemType(1); const std::string dom = Expr(GTy::Set(src), depth + 1);   // often the iterated variable itself is the result element
+      if (src.k == GTy::TUPLE && src.sub.size() == 2 && r.Pct(50)) {
+        const std::string w = Fresh(); Push({ v, src.sub[0] }); Push({ w, src.sub[1] }); std::string body2 = Expr(u, depth + 1); std::string guard2 = r.Pct(50) ? ";" + Logic(depth + 1) : ""; locals.pop_back(); locals.pop_back();
+        return "I{" + body2 + "|(" + v + "," + w + "):∈" + dom + guard2 + "}";
+      }
       Push({ v, src }); std::string body = Expr(u, depth + 1); std::string guard = r.Pct(50) ? ";" + Logic(depth + 1) : ""; locals.pop_back();
       return "I{" + body + "|" + v + ":∈" + dom + guard + "}";
     }
-    case 11: { // recursion (short / full)
+    case 11: { // recursion (short / full); a bare step (without the variable) is compared with the initial value by the recursion rule itself
       const std::string v = Fresh(); const std::string init = r.Pct(30) ? std::string("∅") : Expr(t, depth + 1);   // with ∅ the type of the variable is re-deduced from the step
-      Push({ v, t }); std::string step = v + "∪" + Expr(t, depth + 1); std::string cond = r.Pct(50) ? "|card(" + v + ")<" + std::to_string(r.Range(1, 6)) : ""; locals.pop_back();
+      Push({ v, t }); std::string step = r.Pct(30) ? Rhs(t, depth + 1) : v + "∪" + Rhs(t, depth + 1); std::string cond = r.Pct(50) ? "|card(" + v + ")<" + std::to_string(r.Range(1, 6)) : ""; locals.pop_back();
       return "R{" + v + ":=" + init + cond + "|" + step + "}";
     }
     case 12: return Dom(u);
@@ -186,7 +212,24 @@ public:
 
   // function definition: [α∈Dom, ...] body
   std::string FunctionDef(bool predicate) {
-    const int n = r.Range(1, 2); std::string head = "["; const size_t base = locals.size();
+    const size_t base = locals.size();
+    if (r.Pct(30)) {
+      // the ROOT of the body is something normalisation has to rewrite after argument substitution: a tuple binder or another function's call
+      std::vector<const GFunc*> same; for (auto& f : env.funcs) if (f.logic == predicate && !f.args.empty()) same.push_back(&f);
+      if (!same.empty() && r.Pct(40)) {
+        const GFunc& f = *r.Pick(same); std::string head = "[", call = f.name + "[";
+        for (size_t i = 0; i < f.args.size(); ++i) { const std::string v = Fresh(); if (i) { head += ","; call += ","; } head += v + "∈" + Dom(f.args[i]); call += v; Push({ v, f.args[i] }); }
+        locals.resize(base); return head + "] " + call + "]";
+      }
+      const GTy a = RandomElemType(2), b = RandomElemType(2); const GTy st = GTy::Set(GTy::Tuple({ a, b }));
+      const std::string sv = Fresh(); Push({ sv, st }); const std::string x = Fresh(); Push({ x, a }); const std::string y = Fresh(); Push({ y, b });
+      std::string body;
+      if (predicate) body = std::string(r.Pct(50) ? "∀" : "∃") + "(" + x + "," + y + ")∈" + sv + " " + Wrap(Logic(2));
+      else if (r.Pct(50)) body = "I{" + std::string(r.Pct(70) ? x : y) + "|(" + x + "," + y + "):∈" + sv + (r.Pct(50) ? ";" + Logic(2) : "") + "}";
+      else body = "D{(" + x + "," + y + ")∈" + sv + "|" + Logic(2) + "}";
+      locals.resize(base); return "[" + sv + "∈" + Dom(st) + "] " + body;
+    }
+    const int n = r.Range(1, 2); std::string head = "[";
     for (int i = 0; i < n; ++i) { const GTy u = RandomElemType(1); const std::string v = Fresh(); if (i) head += ","; head += v + "∈" + (r.Pct(15) ? "ℬ(R1)" : Dom(u)); Push({ v, u }); }
     std::string body = predicate ? Logic(1) : Expr(RandomType(), 1);
     locals.resize(base);
@@ -214,14 +257,14 @@ private:
   std::string Atom(int depth) {
     const GTy u = RandomElemType(1);
     switch (r.Below(9)) {
-    case 0: return Expr(u, depth + 1) + "=" + Expr(u, depth + 1);
-    case 1: return Expr(u, depth + 1) + "≠" + Expr(u, depth + 1);
-    case 2: case 3: return Expr(u, depth + 1) + (r.Pct(75) ? "∈" : "∉") + Expr(GTy::Set(u), depth + 1);
-    case 4: { static const char* ops[]{ "⊆", "⊂", "⊄" }; return Expr(GTy::Set(u), depth + 1) + ops[r.Below(3)] + Expr(GTy::Set(u), depth + 1); }
+    case 0: return Expr(u, depth + 1) + "=" + Rhs(u, depth + 1);
+    case 1: return Expr(u, depth + 1) + "≠" + Rhs(u, depth + 1);
+    case 2: case 3: return Expr(u, depth + 1) + (r.Pct(75) ? "∈" : "∉") + Rhs(GTy::Set(u), depth + 1);
+    case 4: { static const char* ops[]{ "⊆", "⊂", "⊄" }; return Expr(GTy::Set(u), depth + 1) + ops[r.Below(3)] + Rhs(GTy::Set(u), depth + 1); }
     case 5: { static const char* ops[]{ "<", ">", "≤", "≥" }; return Expr(GTy::Int(), depth + 1) + ops[r.Below(4)] + Expr(GTy::Int(), depth + 1); }
     case 6: return "1=1";
     case 7: return "card(" + Expr(GTy::Set(u), depth + 1) + ")" + (r.Pct(50) ? "=" : ">") + std::to_string(r.Range(0, 4));
-    default: return Expr(GTy::Set(u), depth + 1) + "=" + (r.Pct(30) ? "∅" : Expr(GTy::Set(u), depth + 1));
+    default: return Expr(GTy::Set(u), depth + 1) + "=" + (r.Pct(30) ? "∅" : Rhs(GTy::Set(u), depth + 1));
     }
   }
 };
